@@ -25,6 +25,11 @@
 (* names left to the newick parser (Make's second argument is the newick      *)
 (* text without internal labels: edge.0, edge.1, ...) and user-given internal *)
 (* names that look like generated ones (edge.0, edge.0.1, ...).               *)
+(* LENGTHS of the model are whole numbers of half units.  The harness          *)
+(* instantiates the half unit as 1/2 (exact binary floats, every action) and,  *)
+(* for the text round trips of freshly made trees, as 1.23456789e-9 / 2 and    *)
+(* 50.000000000123 / 2 (extreme but legal lengths, not representable in a few  *)
+(* decimals; path lengths then compared with relative tolerance 1e-9).         *)
 EXTENDS Trees, Emit
 
 CONSTANTS MinTips, MaxTips,    \* initial trees have MinTips..MaxTips tips
